@@ -25,9 +25,9 @@ M20 = (1 << 20) - 1
 QUICK_LS = list(range(0, 13)) + [16, 23, 32, 47]
 FULL_GRID_MAX = 1100      # ship the whole grid when it has at most this many points
 SUB_POINTS = 512          # else this many seeded points
-SINGLE_POINTS = 32
+SINGLE_POINTS = 48
 NREF_SPARSE = 64          # reference points of sparse vectors (all other shipped points: route agreement)
-NPROBE = 6                # reference points of dense vectors (4 above L = 16)
+NPROBE = 8                # reference points of dense vectors (6 above L = 16)
 
 MC_CFG = """SPECIFICATION Spec
 CHECK_DEADLOCK FALSE
@@ -258,7 +258,7 @@ def drive(recipe):
     t["chan"] = chan
     if gp:
         if dense:
-            ri = sorted(rng.sample(range(len(gp)), min(NPROBE if L <= 16 else 4, len(gp))))
+            ri = sorted(rng.sample(range(len(gp)), min(NPROBE if L <= 16 else 6, len(gp))))
         elif len(gp) <= NREF_SPARSE:
             ri = list(range(len(gp)))
         else:
@@ -373,7 +373,7 @@ def recipes_for(ctx):
             if kind == "cplx" and L == 0:
                 continue                               # L = 0 complex: nplm == nlm, the size test picks the real path
             order = native_order(L, kind)
-            for v in range(ndense if (L <= 16 or not ctx.quick) else 2):
+            for v in range(ndense):
                 spec = {"type": "dense", "seed": nxt(), "hi": 9}
                 g1 = {"type": "dense", "seed": nxt(), "hi": 5}
                 g2 = {"type": "dense", "seed": nxt(), "hi": 5}
@@ -411,7 +411,7 @@ def weight(r):
 
 
 def run(ctx, explain=False):
-    lv = ctx.pick(3, 5)
+    lv = ctx.pick(4, 5)
     ctx.model_check("mc/MC_SHT.tla", MC_CFG % lv, name="MC_SHT(L<=%d vectors, L<=64 layouts/grid)" % lv, timeout=1200)
     rs = recipes_for(ctx)
     order = sorted(range(len(rs)), key=lambda i: -weight(rs[i]))      # heavy first for load balance
